@@ -488,6 +488,53 @@ fn main() {
                 }
             }
         }
+        // family 6: uploads that take longer than ten seconds in total while the client never stalls for long (four pieces,
+        // 3.6 s apart), on the signature-exempt and on the signed route, content-length and chunked; run side by side
+        let mut slow_n = 0u64;
+        {
+            let mut jobs = Vec::new();
+            for (k, (method, target, chunked)) in [("PUT", "/vmAgentLog", false), ("POST", "/slow?x=1", false), ("POST", "/slow?x=2", true)].into_iter().enumerate() {
+                id += 1;
+                slow_n += 1;
+                sport = if sport >= 39000 { 36000 } else { sport + 1 };
+                let body = pattern(16, id);
+                let rid = id;
+                let t = format!("{target}{}id={rid}&st=200&len=2&fr=cl", if target.contains('?') { "&" } else { "?" });
+                let cs = [4usize];
+                let raw = build_request(method, &t, &[("Host", b"h")], Some(&body), if chunked { Some(&cs) } else { None });
+                let head_len = raw.windows(4).position(|x| x == b"\r\n\r\n").unwrap() + 4;
+                let conn = w.connect(Some(sport), Some(&rec));
+                jobs.push((k, method, t, body, rid, std::thread::spawn(move || -> Result<Msg, String> {
+                    let mut c = conn.map_err(|e| format!("connect: {e}"))?;
+                    let rest = &raw[head_len..];
+                    let piece = rest.len().div_ceil(4);
+                    c.send(&raw[..head_len]).map_err(|e| e.to_string())?;
+                    for (i, part) in rest.chunks(piece).enumerate() {
+                        if i > 0 {
+                            std::thread::sleep(Duration::from_millis(3600));
+                        }
+                        c.send(part).map_err(|e| e.to_string())?;
+                    }
+                    let r = c.read_response(false, Duration::from_secs(20));
+                    c.close();
+                    r
+                })));
+            }
+            let cur = w.hosts.ws.cursor();
+            let results: Vec<_> = jobs.into_iter().map(|(k, m, t, b, rid, h)| (k, m, t, b, rid, h.join().unwrap_or_else(|_| Err("client thread panicked".into())))).collect();
+            let got = w.hosts.ws.requests_since(cur);
+            for (_k, method, t, body, rid, resp) in results {
+                evals += 1;
+                let case = json!({"family": "upload-slower-than-10s", "method": method, "target": t, "pieces": 4, "gap_ms": 3600});
+                nontrivial.insert(case.to_string());
+                let at_host = got.iter().find(|(_, m)| qparam(m.target(), "id") == Some(&rid.to_string())).map(|g| &g.1);
+                match (at_host, &resp) {
+                    (Some(m), Ok(r)) if m.body == body && r.status() == 200 => {}
+                    (h, r) => res.violation("request:slow-upload-not-relayed", &format!("an upload of 16 bytes sent in 4 pieces over 10.8 s: host saw {:?}, client got {:?}", h.map(|m| m.body.len()), r.as_ref().map(|x| x.status()).map_err(|e| e.clone())), case),
+                }
+            }
+        }
+        res.cov("slow_upload_requests", slow_n);
         // family 5: absolute-form request targets (a client configured with an HTTP proxy sends them): path and query
         // reach the host unchanged (whether the proxy keeps the absolute form or rewrites it to origin form)
         let mut abs_n = 0u64;
@@ -538,7 +585,7 @@ fn main() {
         res.cov("host_dies_mid_answer_requests", aborted_n);
         res.cov("exempt_upload_requests", exempt_n);
         res.cov("pipelines", pipelines);
-        res.cov("rule", format!("one request per fresh attributed connection for the product of 5 methods x {} client header sets (repeated names in three spellings, empty value, punctuation, names resembling the proxy-owned ones, 14 well-known request headers) x {} request body framings (0..102400 bytes, content-length / chunks of 1, 7, 4096 / single chunk) x {} host answers (status 200/204/404/500, body 0/1/70000 bytes covering all byte values, content-length or chunked, TCP segment boundary at 0/1/2/4095/4096/4097), with a key latched and (slice) without; plus {} pipelines of 1-3 back-to-back requests on 1 and 2 concurrent keep-alive connections; plus a SAMPLED family of 300 (1200) back-to-back request pairs on kept-alive connections while the agent's runtime workers are held 0.7 ms at a time; plus 30 absolute-form request targets (3 authorities x 5 path/query shapes x 2 methods): path and query unchanged at the host; plus answers cut off by the death of the host at 10 offsets (inside the head, 0/1/3/4000/8197 bytes into the body, 8/5/3/1 bytes before the end) x content-length/chunked x 2 sizes, which must not reach the client as a complete message; plus the two signature-exempt uploads with 9 body framings (0 bytes .. 1 MiB, content-length and chunked) x 2 header sets; the host's answer is a function of the request target and echoes the request id", hsets, req_bodies.len(), resps.len(), pipelines));
+        res.cov("rule", format!("one request per fresh attributed connection for the product of 5 methods x {} client header sets (repeated names in three spellings, empty value, punctuation, names resembling the proxy-owned ones, 14 well-known request headers) x {} request body framings (0..102400 bytes, content-length / chunks of 1, 7, 4096 / single chunk) x {} host answers (status 200/204/404/500, body 0/1/70000 bytes covering all byte values, content-length or chunked, TCP segment boundary at 0/1/2/4095/4096/4097), with a key latched and (slice) without; plus {} pipelines of 1-3 back-to-back requests on 1 and 2 concurrent keep-alive connections; plus a SAMPLED family of 300 (1200) back-to-back request pairs on kept-alive connections while the agent's runtime workers are held 0.7 ms at a time; plus three uploads that take 10.8 s in total (4 pieces 3.6 s apart; exempt and signed route, content-length and chunked); plus 30 absolute-form request targets (3 authorities x 5 path/query shapes x 2 methods): path and query unchanged at the host; plus answers cut off by the death of the host at 10 offsets (inside the head, 0/1/3/4000/8197 bytes into the body, 8/5/3/1 bytes before the end) x content-length/chunked x 2 sizes, which must not reach the client as a complete message; plus the two signature-exempt uploads with 9 body framings (0 bytes .. 1 MiB, content-length and chunked) x 2 header sets; the host's answer is a function of the request target and echoes the request id", hsets, req_bodies.len(), resps.len(), pipelines));
     } else {
         // ---------------- C15 ----------------
         w.set_key(Some(K1));
